@@ -418,10 +418,10 @@ def entered_functions():
 _yield_hook = [None]
 
 
-def sx_yield(lineno):
+def sx_yield(mod, func, lineno):
     h = _yield_hook[0]
     if h is not None:
-        h(lineno)
+        h(mod, func, lineno)
 
 
 def set_yield_hook(h):
